@@ -35,7 +35,7 @@ def validate(module: nn.MultiheadAttention) -> List[UnsupportedModuleError]:
 
 
 @register_module_fixer(nn.MultiheadAttention)
-def fix(module: nn.MultiheadAttention) -> DPMultiheadAttention:
+def fix(module: nn.MultiheadAttention, **kwargs) -> DPMultiheadAttention:
     dp_attn = DPMultiheadAttention(
         embed_dim=module.embed_dim,
         num_heads=module.num_heads,
